@@ -33,7 +33,7 @@ func init() {
 	register(&Prop{
 		ID:         "C14",
 		Level:      "exploration",
-		Nodes:      func(tier string) []string { return []string{"avx2", "purego"} },
+		Nodes:      func(tier string) []string { return []string{"avx2", "noclmul", "purego"} },
 		Cross:      true,
 		GlobalRand: true,
 		Init:       c14Init,
